@@ -8,6 +8,9 @@ C06 driver: one JSON request per line on stdin, one JSON answer per line on stdo
   {"op":"validate","backend":B,"md":MD}
       -> {"model":"ok"|kind,"spec":{..}|null,"valid":bool,"welltyped":bool,"flag":bool}
   {"op":"subst","line":text,"lit":text} -> {"out":text}   whole-word substitution of `collection_name`
+  {"op":"exec","wanted":[[type,bank]..],"fails":[bank..],"reqs":[[type,bank,ok]..],"success":bool,"crashed":bool}
+      -> {"holds":bool,"expected":[[type,bank]..]}        ExecSpec on the log of the executed job (mock event store)
+  {"op":"tablechecks"} -> {"failing":[{kind,backend,item}..],"unrecognised":[..]}   the table theorems item by item
   {"op":"tables"} -> {"atlas":[row..],"cms_aod":[..],"cms_miniaod":[..]}  built-ins as the model sees them
 
   B   = "atlas" | "cms_aod" | "cms_miniaod"
@@ -161,10 +164,10 @@ def handle (line : String) : String :=
         let holds := decide (RunSpec b mds uses out)
         let filters := Json.mkObj [
           ("typeClean", decide (∀ p ∈ resolveAll b mds uses, TypeClean p.1)),
-          ("kindDefault", decide (∀ md ∈ mds, KindDefault b md)),
-          ("cmsIsCollection", decide (∀ md ∈ mds, CmsIsCollection b md)),
+          ("kindDefault", decide (∀ md ∈ mds, md.mdType = b.mdType → KindDefault b md)),
+          ("cmsIsCollection", decide (∀ md ∈ mds, md.mdType = b.mdType → CmsIsCollection b md)),
           ("nameClean", decide (∀ u ∈ uses, NameClean u.name)),
-          ("wellTyped", decide (∀ md ∈ mds, md.WellTyped ∧ keysDistinct md))]
+          ("wellTyped", decide (∀ md ∈ mds, md.WellTyped))]
         pure (Json.mkObj [("holds", holds), ("why", if holds then "" else explain b mds uses out),
           ("obs", match out with | .ok o => jObs o | .rejected => Json.null), ("filters", filters)])
       else if op == "validate" then
@@ -179,6 +182,21 @@ def handle (line : String) : String :=
         let l ← getT j "line"
         let lit ← getT j "lit"
         pure (Json.mkObj [("out", jT (substWord paramName lit l)), ("has", hasWord paramName l)])
+      else if op == "exec" then
+        let pairs (k : String) : Except String (List (List Json)) := do
+          let a ← (← j.getObjVal? k).getArr?
+          a.toList.mapM fun x => do pure (← x.getArr?).toList
+        let wanted ← (← pairs "wanted").mapM fun
+          | [a, b] => do pure (T (← a.getStr?), T (← b.getStr?))
+          | _ => throw "wanted: not a pair"
+        let reqs ← (← pairs "reqs").mapM fun
+          | [a, b, c] => do pure ({ ty := T (← a.getStr?), bank := T (← b.getStr?), ok := ← c.getBool? } : ReqObs)
+          | _ => throw "reqs: not a triple"
+        let fails ← getTs j "fails"
+        let success ← (← j.getObjVal? "success").getBool?
+        let crashed ← (← j.getObjVal? "crashed").getBool?
+        pure (Json.mkObj [("holds", decide (ExecSpec wanted fails reqs success crashed)),
+          ("expected", Json.arr ((takeThrough (fun p => decide (p.2 ∈ fails)) wanted.eraseDups).map (fun p => Json.arr #[jT p.1, jT p.2])).toArray)])
       else if op == "tablechecks" then
         -- the table theorems, item by item: which row / name / key is the failing input
         let bad (kind : String) (b : String) (what : Text) : Json := Json.mkObj [("kind", kind), ("backend", b), ("item", jT what)]
